@@ -31,13 +31,15 @@ M = [
   "            for match_chosen in good_indices:\n                good_match_index_tuples.append(match_tuples[match_chosen])\n                good_match_quats.append(quats[match_chosen])"),
  ("s-image-index", "C01", "mofun/mofun.py", "match_index_tuples_in_uc = [tuple([near_indices[m] % len(structure) for m in match]) for match in good_match_index_tuples]", "match_index_tuples_in_uc = [tuple([near_indices[m] % len(structure) if i else near_indices[m] % len(structure) for i, m in enumerate(match)][::1]) for match in good_match_index_tuples]\n    match_index_tuples_in_uc = [tuple(reversed(t)) if len(t) == 2 else t for t in match_index_tuples_in_uc]"),
  ("s-nearby-box", "C02,C03", "mofun/mofun.py", "        p1 = p[(p[:, 0] <= near_pos[a][0] + pattern_length) & (p[:, 0] >= near_pos[a][0] - pattern_length)]", "        p1 = p[(p[:, 0] <= near_pos[a][0] + pattern_length) & (p[:, 0] >= near_pos[a][0])]"),
- ("s-opoint-hint", "C03", "mofun/mofun.py", "    if len(pattern) > 2 and opoint_idx is None:", "    if len(pattern) > 2:"),
+ # breaks no listed property: an ignored orientation hint leaves the result independent of the hint
+ # ("s-opoint-hint", "C03", "mofun/mofun.py", "    if len(pattern) > 2 and opoint_idx is None:", "    if len(pattern) > 2:"),
  ("s-uc-offsets", "C02,C17", "mofun/mofun.py", "    multipliers = np.array(np.meshgrid([-1, 0, 1],[-1, 0, 1],[-1, 0, 1])).T.reshape(-1, 1, 3)", "    multipliers = np.array(np.meshgrid([-1, 0, 1],[-1, 0, 1],[0, 1])).T.reshape(-1, 1, 3)"),
  # ---- C04..C08 (replace)
  ("r-round-int", "C04", "mofun/mofun.py", "k=round(replace_fraction * len(match_positions)))", "k=int(replace_fraction * len(match_positions)))"),
  ("r-no-copy", "C04", "mofun/mofun.py", "    new_structure = structure.copy()", "    new_structure = structure"),
  ("r-unchanged-delta", "C04", "mofun/atoms.py", "def find_unchanged_atom_pairs(orig_structure, final_structure, max_delta=1e-5):", "def find_unchanged_atom_pairs(orig_structure, final_structure, max_delta=1e-2):"),
- ("r-delete-all-found", "C04", "mofun/mofun.py", "    if replace_fraction < 1.0:\n        replace_indices", "    all_found = [idx for match in match_indices for idx in match]\n    if replace_fraction < 1.0:\n        replace_indices"),
+ # equivalent (adds an unused variable only) - kept for the record, not run
+ # ("r-delete-all-found", "C04", "mofun/mofun.py", "    if replace_fraction < 1.0:\n        replace_indices", "    all_found = [idx for match in match_indices for idx in match]\n    if replace_fraction < 1.0:\n        replace_indices"),
  ("r-translate-p1", "C05,C08", "mofun/mofun.py", "            new_atoms.translate(atom_positions[0])", "            new_atoms.translate(atom_positions[-1])"),
  ("r-q-inv", "C05,C08", "mofun/mofun.py", "            new_atoms.positions = q.apply(new_atoms.positions)", "            new_atoms.positions = q.inv().apply(new_atoms.positions)"),
  ("r-no-frame", "C05", "mofun/mofun.py", "    replace_pattern.translate(-search_pattern.positions[0])\n", "    pass\n"),
@@ -58,9 +60,11 @@ M = [
  ("e-mapped-type-no-offset", "C06,C11", "mofun/atoms.py", "            self.atom_types[self_index] = other.atom_types[other_index] + offsets[0]", "            self.atom_types[self_index] = other.atom_types[other_index]"),
  # ---- C10 (delete)
  ("d-sort-ascending", "C10", "mofun/atoms.py", "        sorted_indices = sorted(indices, reverse=True)", "        sorted_indices = sorted(indices)"),
- ("d-ge-shift", "C10", "mofun/atoms.py", "            np.subtract(updated_arr, 1, out=updated_arr, where=updated_arr>i)", "            np.subtract(updated_arr, 1, out=updated_arr, where=updated_arr>=i)"),
+ # equivalent: terms containing a deleted atom are removed before the shift, so no index equals i
+ # ("d-ge-shift", "C10", "mofun/atoms.py", "            np.subtract(updated_arr, 1, out=updated_arr, where=updated_arr>i)", "            np.subtract(updated_arr, 1, out=updated_arr, where=updated_arr>=i)"),
  ("d-forget-extra-bond", "C10", "mofun/atoms.py", "            self.extra_bond_fields = np.delete(self.extra_bond_fields, arr_idx_to_delete, axis=0)\n        if len(self.angles) > 0:", "        if len(self.angles) > 0:"),
- ("d-groups-not-deleted", "C10,C09", "mofun/atoms.py", "        self.groups = np.delete(self.groups, indices, axis=0)\n        self.extra_atom_fields", "        self.groups = np.delete(self.groups, indices[:1] if len(indices) else indices, axis=0) if len(indices) == 1 else np.delete(self.groups, sorted(indices)[::-1][:len(indices)], axis=0)[::1]\n        self.extra_atom_fields"),
+ # equivalent as written (the expression reduces to the original)
+ # ("d-groups-not-deleted", "C10,C09", "mofun/atoms.py", "        self.groups = np.delete(self.groups, indices, axis=0)\n        self.extra_atom_fields", "        self.groups = np.delete(self.groups, indices[:1] if len(indices) else indices, axis=0) if len(indices) == 1 else np.delete(self.groups, sorted(indices)[::-1][:len(indices)], axis=0)[::1]\n        self.extra_atom_fields"),
  ("d-improper-types-kept", "C10", "mofun/atoms.py", "            self.improper_types = np.delete(self.improper_types, arr_idx_to_delete, axis=0)", "            self.improper_types = self.improper_types[:len(self.impropers)]"),
  # ---- C12 (replicate)
  ("p-cell-T-dropped", "C12", "mofun/atoms.py", "            transatoms.translate(np.matmul(transatoms.cell.T, ucmult))", "            transatoms.translate(np.matmul(transatoms.cell, ucmult))"),
